@@ -11,13 +11,14 @@ def sh(cmd, **kw):
     return subprocess.run(cmd, stdout=subprocess.PIPE, stderr=subprocess.STDOUT, text=True, **kw)
 
 def main():
-    ids = sys.argv[1:] or sorted(os.listdir(os.path.join(V, 'seeded')))
+    base = os.environ.get('SELFTEST_DIR', 'seeded')
+    ids = sys.argv[1:] or sorted(os.listdir(os.path.join(V, base)))
     claimed = json.load(open(os.path.join(V, 'props.json')))['claimed']
     if sh(['git', '-C', REPO, 'status', '--porcelain', '--untracked-files=no']).stdout.strip():
         print('/repo is not clean'); return 2
     table = []
     for mid in ids:
-        d = os.path.join(V, 'seeded', mid)
+        d = os.path.join(V, base, mid)
         patch = os.path.join(d, 'patch.diff')
         if not os.path.exists(patch):
             continue
